@@ -133,7 +133,7 @@ class C02(Property):
     sys.unraisablehook = lambda *a: None
 
   def budget(self, tier):
-    return (16000, 40.0) if tier == "quick" else (2000000, 900.0)
+    return (100000, 60.0) if tier == "quick" else (20000000, 780.0)
 
   # ---------------------------------------------------------------- workload
   def gen_workload(self, W, index):
